@@ -33,11 +33,14 @@ DECIDES = ('(a) C07-L8: no value test on X.constant_result in PowNode is evaluat
            '(h) C07-POW2MODEL: __Pyx__PyNumber_PowerOf2 evaluated on a model PyLong (LP64 / LLP64 / ILP32, with and without PyLong internals) returns 2 ** exp as CPython computes it for negative, zero, '
            'every shift-width arm, beyond-Py_ssize_t and non-int exponents, never NULL without an exception; '
            '(i) C07-CPOW: is_cpow is assigned from the scoped directive directives[\'cpow\'] (parameter scope, key known to Options, not the defaults, right polarity, reachable while is_cpow is None) '
-           'and infer_type / analyse_types call the assigning method before delegating upwards on every path.')
+           'and infer_type / analyse_types call the assigning method before delegating upwards on every path; '
+           '(j) C07-TRISTATE (rules/s4C07.py): an explicit cpow setting is final - every store to is_cpow other than the directive read (PowNode.coerce_to\'s fall-back to C semantics, any store from another module) '
+           'is reachable only while is_cpow is None, decided by evaluating the store\'s path condition over is_cpow in {None, False, True} x all valuations of the opaque tests (locals, one-line helper methods and the call sites '
+           'of private helpers inlined); the directive read does not collapse an explicit False to None; the class default is None; and C07-TAB gives the unset state the documented default column (cpow==False).')
 NOT_DECIDED = ('IntPow for exponents beyond the evaluated bit patterns (the loop treats every bit alike) and signed overflow inside it (the helper squares once more than needed); values computed by pow()/powf(); '
                'the accessor macros / C-API calls used by __Pyx__PyNumber_PowerOf2 (modelled by their contracts); '
-               'that the operand types reaching compute_c_result_type are what the user wrote (coercions before PowNode); PowNode.coerce_to\'s fallback to '
-               'cpow behaviour; complex operands (not in the documented table).  I5 via the generic emitted-call scanner was dropped: the callee of the '
+               'that the operand types reaching compute_c_result_type are what the user wrote (coercions before PowNode); what PowNode.coerce_to\'s fallback to '
+               'cpow behaviour does for an UNSET directive (only that it never touches an explicit setting is decided, C07-TRISTATE); complex operands (not in the documented table).  I5 via the generic emitted-call scanner was dropped: the callee of the '
                'emitted call is a run-time string (self.pow_func), the dedicated rule C07-INTPOW follows that attribute instead.')
 ASSUMPTIONS = [
     'type stubs model CIntType/CFloatType: is_int/is_float/is_numeric flags, signed in {0,1}, rank = index in PyrexTypes.rank_to_type_name; every other is_* flag is 0 (class default of PyrexType)',
@@ -84,6 +87,11 @@ MUTATIONS = [
     ('mutants/C07/*', '14 + 5 brainstormed breaking edits (square-and-multiply loop: squaring dropped, bit select, shift by 2, missing init, loop bound; PowerOf2: IsNeg arm dropped, 2**0 == 0, shifting the object 2, '
                       'signed converter for 2**63, error polarity, accessor arms exchanged; cpow read negated / from the defaults / not called / unreachable, ...) and 11 behaviour-preserving rewrites; see meta.json of each',
      'C07-POWLOOP / C07-POW2MODEL / C07-CPOW'),
+    ('Cython/Compiler/ExprNodes.py', 'seed C07e: coerce_to guard `self.is_cpow is None` -> `not self.is_cpow`; 13 further edits (mutants/C07/h-*, h2-*: conjunct dropped, `is not True`, `in (None, False)`, and/or slip, '
+                                     'early return only for a truthy value, helper method returning `not self.is_cpow`, extracted re-analysis whose caller guards with `not`, store from Optimize.py, writer `... or None`, '
+                                     'class default False, compute_c_result_type taking the cpow branch for None)', 'C07-TRISTATE / C07-TAB (unset column)'),
+    ('Cython/Compiler/ExprNodes.py', '7 rewrites (mutants/C07/hp-*, hp2-*): unset test through a local / a one-line helper method / an early return / an enclosing if / De Morgan, re-analysis extracted into a private method, '
+                                     '`if self.is_cpow is True:` in compute_c_result_type', None),
     # behaviour preserving (all silent)
     ('Cython/Compiler/ExprNodes.py', 'rename local needs_widening -> widen in compute_c_result_type', None),
     ('Cython/Compiler/ExprNodes.py', 'compute type2_is_int before op1_is_definitely_positive; swap the operands of both `or`s', None),
@@ -281,8 +289,9 @@ def check_cells(dom, cells, pow_cls, fn_override=None):
     """-> list of (cell key, row label, cpow, problem text, n scenarios)."""
     out = []
     for label, a_kinds, b_class, kinds in cells:
-        for cpow in (True, False):
-            want = kinds[cpow]
+        for cpow in (True, False, None):
+            # None = directive not given: documented as `cpow (True / False), default=False`, so the cpow==False column applies
+            want = kinds[bool(cpow)]
             bad = []
             n = 0
             for t1, t2, bc, ec in scenarios_for(dom, a_kinds, b_class):
@@ -305,12 +314,12 @@ def check_cells(dom, cells, pow_cls, fn_override=None):
                         got += ' (cannot hold the complex result of a possibly negative base with a possibly non-integral exponent)'
                 if not ok:
                     bad.append('%s -> %s' % (_fmt(t1, t2, bc, ec), got))
-            out.append(('%s|cpow=%s' % (_norm(label), cpow), label, cpow, want, bad, n))
+            out.append(('%s|cpow=%s' % (_norm(label), 'unset' if cpow is None else cpow), label, cpow, want, bad, n))
     return out
 
 
 def rule_TAB(ctx, dom, pow_cls):
-    r = Rule('C07-TAB', 'every scenario of every cell of the documented cpow table gets the documented result kind from PowNode.compute_c_result_type', floor=8)
+    r = Rule('C07-TAB', 'every scenario of every cell of the documented cpow table gets the documented result kind from PowNode.compute_c_result_type (cpow True, False and unset = documented default False)', floor=12)
     cells = doc_cells(ctx)
     if len(cells) < 4:
         raise AnalysisError('%s: only %d rows' % (DOC_TABLE, len(cells)))
@@ -322,7 +331,7 @@ def rule_TAB(ctx, dom, pow_cls):
         if bad:
             r.violate(key, 'Cython/Compiler/ExprNodes.py', own[1].lineno,
                       'documented cpow table, row "%s", column cpow==%s says "%s" but PowNode.compute_c_result_type gives: %s%s'
-                      % (label, cpow, {'double': 'C double', 'int': 'integer', 'float': 'floating point', 'real_or_complex': 'C real or complex'}[want],
+                      % (label, 'False (the documented default, directive not given: is_cpow is None)' if cpow is None else cpow, {'double': 'C double', 'int': 'integer', 'float': 'floating point', 'real_or_complex': 'C real or complex'}[want],
                          '; '.join(bad[:4]), ' ... (%d scenarios)' % len(bad) if len(bad) > 4 else ''),
                       scenarios=bad)
     # positive control: a variant that never widens must be caught in the documented C-double cells
@@ -778,4 +787,6 @@ def run(ctx):
     rules.append(sC07.rule_powloop(ctx))
     rules.append(sC07.rule_pow2model(ctx))
     rules.append(sC07.rule_cpow(ctx))
+    from ..rules import s4C07
+    rules.append(s4C07.rule_tristate(ctx))
     return rules
